@@ -121,7 +121,8 @@ def check_byte_hash(run, rule):
 
 def check_block_table(run, rule):
     facts = run.facts
-    specs = [r for q, r in facts.records.items() if q.startswith("CDNS::BlockTable<")]
+    # (the table specialisations themselves, not helper types declared inside the class template)
+    specs = [r for q, r in facts.records.items() if q.startswith("CDNS::BlockTable<") and q.endswith(">")]
     if len(specs) < 6:
         raise AnalysisBroken(rule, "only %d BlockTable specialisations found" % len(specs))
     for rec in sorted(specs, key=lambda r: r["qn"]):
@@ -171,7 +172,16 @@ def check_block_table(run, rule):
             for mf in methods:
                 if mf["qn"].split("::")[-1] in ("find",):
                     continue      # lookups build a temporary KeyRef from the argument; it is not stored
+                lookup_args = set()
                 for c in ir.calls_in(mf["body"]):
+                    # a KeyRef handed to a lookup of the index is a temporary that the index does not keep
+                    if c.get("k") == "MCall" and callee_name(c) in ("find", "count", "contains", "equal_range") and path(c.get("recv")) == ("this", index):
+                        for a_ in c.get("args", []):
+                            for x_ in ir.walk(a_):
+                                lookup_args.add(id(x_))
+                for c in ir.calls_in(mf["body"]):
+                    if id(c) in lookup_args:
+                        continue
                     if c.get("k") == "Construct" and "KeyRef" in (c.get("t") or "") and c.get("args") and not c.get("copymove"):
                         txt = show(c["args"][0])
                         src = unwrap_all_casts(c["args"][0])
@@ -218,6 +228,14 @@ def check_block_table(run, rule):
                     continue
                 if any(callee_name(c) == "add_value" for c in ir.calls_in(st)):
                     guarded = any("find(" in repr(cj) or "find" in show_f(cj) for cj in conjuncts(g)) and any(cj[0] == "not" for cj in conjuncts(g))
+                    if not guarded:
+                        # the lookup spelled out: an iterator obtained from index.find(..) compared equal to end()
+                        for cj in conjuncts(g):
+                            if cj[0] == "cmp" and cj[1] == "==" and "end()" in (str(cj[2]) + str(cj[3])):
+                                for nm_, d_ in env.defs.items():
+                                    if nm_ in (str(cj[2]) + str(cj[3])) and d_ is not None and \
+                                            any(callee_name(c_) == "find" and path(c_.get("recv")) == ("this", index) for c_ in ir.calls_in(d_)):
+                                        guarded = True
             ok = "find" in calls and "add_value" in calls and guarded
             run.ob(rule, "%s:add=find-or-append" % tag, ok, ad, ad["line"],
                    "add() appends only when find() fails" if ok else "add() must return the found index and append only when find() fails")
